@@ -11,7 +11,6 @@ import (
 
 	"github.com/opsidian/parsley/data"
 	"github.com/opsidian/parsley/parsley"
-	"github.com/opsidian/parsley/text"
 )
 
 func init() { components["trim"] = trimMain }
@@ -81,7 +80,7 @@ func trimObserve(G []gnode, content []byte, base int, t *tracer) (obs J, events 
 		ps := b.ps
 		root := ps[len(G)-1]
 		f, fs := fileAt(content, base)
-		ctx := parsley.NewContext(fs, text.NewReader(f))
+		ctx := parsley.NewContext(fs, readerFor(f))
 		node, _, err := root.Parse(ctx, data.EmptyIntMap, f.Pos(0))
 		events = t.ev
 		t.quiet = true
@@ -106,7 +105,7 @@ func trimObserve(G []gnode, content []byte, base int, t *tracer) (obs J, events 
 			obs["nodes"], obs["vals"] = nodes, vals
 		}
 		f2, fs2 := fileAt(content, base)
-		ctx2 := parsley.NewContext(fs2, text.NewReader(f2))
+		ctx2 := parsley.NewContext(fs2, readerFor(f2))
 		n2, e2 := parsley.Parse(ctx2, root)
 		if e2 != nil {
 			obs["text"] = e2.Error()
